@@ -80,6 +80,14 @@ func NewScriptEnv(cfg refbmc.Config, mode memtr.Delivery) *ScriptEnv {
 		}
 		return se.answer(ev)
 	}
+	// "request-lost": the datagram never reaches the BMC (which therefore neither acts on it nor
+	// advances its own sequence number) - as opposed to "lost", where the reply goes missing
+	se.PreFilter = func(n int, req []byte) []byte {
+		if se.st != nil && se.current() == "request-lost" {
+			return nil
+		}
+		return req
+	}
 	se.Filter = func(n int, req, reply []byte) ([]byte, error) {
 		st := se.st
 		if st == nil {
